@@ -17,7 +17,7 @@ ASSUME = [
 def gen_case(seed, i, tier):
     r = core.Rng("c11", seed, i)
     N = r.choice([40, 64, 100, 128])
-    o = dict(GridSize=r.choice([48, 64, 64, 96, 128] if tier == "thorough" else [48, 64, 64, 96]), StepsPerTs=N)
+    o = dict(GridSize=r.choice([48, 64, 65, 96, 128] if tier == "thorough" else [48, 64, 65, 96]), StepsPerTs=N)
     imp = r.choice(["none", "csr", "csr", "file"])
     if imp == "none":
         o["VacuumGap"] = 0
